@@ -53,6 +53,9 @@ func StartTLS(cfg *tls.Config) StreamFeature {
 			d := xml.NewTokenDecoder(r)
 
 			// If no TLSConfig was specified, use a default config.
+			// The feature may be reused for many sessions, so the default must not
+			// be stored in the captured variable.
+			cfg := cfg
 			if cfg == nil {
 				cfg = &tls.Config{
 					ServerName: session.LocalAddr().Domain().String(),
